@@ -115,7 +115,7 @@ dreadMM(FILE *fp, int *m, int *n, int_t *nonz,
    }
 
     if(expand)
-      new_nonz = 2 * *nonz - *n;
+      new_nonz = 2 * *nonz; /* upper bound: diagonal entries may be absent from the file */
     else
       new_nonz = *nonz;
 
